@@ -94,6 +94,9 @@ func pkgPathOf(fn *ssa.Function) string {
 
 func (x *Run) callFunc(fr *Frame, st *State, fn *ssa.Function, args []Val, bindings []Val, site ssa.Instruction) []Outcome {
 	name := fn.String()
+	if fn.Name() == "init" && fn.Synthetic != "" {
+		return single(st, Val{T: "unit", S: SUnit})
+	}
 	// --- verification intrinsics ---
 	if x.isVerifPkg(fn) {
 		if outs, ok := x.intrinsic(fr, st, fn, args, site); ok {
@@ -114,6 +117,13 @@ func (x *Run) callFunc(fr *Frame, st *State, fn *ssa.Function, args []Val, bindi
 		return x.useContract(fr, st, con, args, site)
 	}
 	// --- spec functions ---
+	if x.spec.pure[name] && (fr.inSpec() || fr.inPure()) && fn.Signature.Results().Len() == 1 && len(fn.Blocks) > 0 && !x.onStack(fr, fn) {
+		rt := fn.Signature.Results().At(0).Type()
+		if x.d.sortOf(rt) != "Tuple" {
+			t := x.evalPure(fr, st, fn, args, fr.bound)
+			return single(st, Val{T: t, S: x.d.sortOf(rt), Ty: rt})
+		}
+	}
 	if x.spec.isUninterp(name) {
 		return single(st, x.ufApply(st, "spec."+x.fnShort(fn), args, fn.Signature.Results()))
 	}
@@ -299,7 +309,12 @@ func (x *Run) havocPointee(st *State, a Val) {
 		}
 	case AField:
 		stt, _ := structOf(a.Addr.Ty)
-		x.storeField(st, a.Addr.Ref, a.Addr.Ty, a.Addr.Field, x.freshVal(st, "out", stt.Field(a.Addr.Field).Type()))
+		if len(a.Addr.Sel) == 0 {
+			x.storeField(st, a.Addr.Ref, a.Addr.Ty, a.Addr.Field, x.freshVal(st, "out", stt.Field(a.Addr.Field).Type()))
+		} else {
+			cur := x.load(st, a.Addr, nil)
+			x.storeAddr(st, a.Addr, x.freshVal(st, "out", cur.Ty), nil)
+		}
 	}
 }
 
@@ -447,6 +462,9 @@ func (x *Run) builtin(fr *Frame, st *State, b *ssa.Builtin, cc *ssa.CallCommon, 
 		k := x.coerce(st, args[1], mapTypeOf(m.Ty).Key())
 		x.checkValGuard(fr, st, m, true, site)
 		x.mapDelete(st, m, k.T)
+		if m.Origin != "" && !fr.inPure() {
+			st.events = append(st.events, Event{Name: "mapdel:" + m.Origin, Args: []Val{m, k}})
+		}
 		return ret(Val{T: "unit", S: SUnit})
 	case "close":
 		ch := args[0]
